@@ -54,7 +54,7 @@ ZERO_TOL = "1e-40"  # symbolic mode / non-zero test: 50-digit evaluation, |v| <=
 
 
 def bounds(tier):
-    common = dict(orders=["fwd", "rev"], scales=["milli", "unit"], modes=["direct", "symbolic"], digits=50,
+    common = dict(extra_systems=["i3 (I2 + I- = I3-: no cation)", "water+i3"], orders=["fwd", "rev"], scales=["milli", "unit"], modes=["direct", "symbolic"], digits=50,
                   extents_full="{-1,0,1}^nr x {1/1000, 1}", extents_core="0, +-e_i at both scales, +-(1,..,1) at both scales",
                   extents_core4="0, +-(1,..,1)/1000, (1,..,1)")
     if tier == "quick":
@@ -73,6 +73,10 @@ def bounds(tier):
 OFFER_SYSTEMS = [((1,), "fwd"), ((0, 1), "fwd"), ((4,), "rev"), ((0, 5), "fwd")]  # nh4 | water+nh4 | cunh3 | water+cr2o7
 
 
+# systems outside the subset lattice: anions and neutral species only (the charge row has no positive entry), alone and with water
+EXTRA_SYSTEMS = [(M.TAGS.index("i3"),), (0, M.TAGS.index("i3"))]
+
+
 def chunks(tier):
     return _chunks_f(tier) + [("G", i, j) for i in range(len(OFFER_SYSTEMS)) for j in range(4)]
 
@@ -80,7 +84,7 @@ def chunks(tier):
 def _chunks_f(tier):
     b = bounds(tier)
     out = []
-    for idx in M.subsets(len(b["pool"]), b["max_subset"]):
+    for idx in M.subsets(len(b["pool"]), b["max_subset"]) + EXTRA_SYSTEMS:
         for order in b["orders"]:
             out.append((idx, order))
     return out
